@@ -49,6 +49,13 @@ def gen_cases(seed, n, threads, max_assign):
         if rng.random() < 0.5:
             g.ctx = ""
             q["p"]["ps"].append(g.bgp(rng.choice([2, 3, 4])))
+        if i % 8 == 7:
+            # wide left side: more than BIND_JOIN_MIN_CHUNK (64) left rows so that execute_bind_join takes its parallel chunk path
+            quads = G.gen_dataset(rng, 26)
+            V, C = G.V, G.C
+            q["p"] = {"t": "join", "ps": [{"t": "bgp", "tps": [[V("a"), V("b"), V("c")]]}, {"t": "bgp", "tps": [[V("d"), C(rng.choice(G.P_IRI)), V("e")]]},
+                                          {"t": "bgp", "tps": [[V("a"), V("h"), V("f")]]}]}
+            q["star"], q["proj"], q["from"], q["fromnamed"], q["group"] = True, [], [], [], []
         q["order"], q["limit"], q["distinct"] = [], -1, False
         qs = [q]
         for _ in range(2):
@@ -108,6 +115,24 @@ def validate(wd, trace, verdict, tag):
         case = dict(m["case"])
         verdict.violation(sig_for(f[1], m), {"driver": "c02", "case": case, "cfg": m["cfg"], "text": m["text"], "verdict": f[1], "err": m["err"]},
                           detail=f"{m['cfg']} {m['text'][:200]}")
+    # independent of the algebra: all configurations of one case (incl. the permuted texts) must return the same multiset
+    groups = {}
+    for eid, m in meta.items():
+        if m["res"] == "ok":
+            groups.setdefault(id(m["case"]), []).append(eid)
+    by_eid = {e["run"]: e for e in events}
+    for eids in groups.values():
+        canon = {}
+        for eid in eids:
+            key = json.dumps(sorted(json.dumps(r, sort_keys=True) for r in by_eid[eid]["sols"]))
+            canon.setdefault(key, []).append(eid)
+        if len(canon) > 1:
+            minority = min(canon.values(), key=len)
+            m = meta[minority[0]]
+            failed.setdefault(minority[0], "configurations disagree")
+            verdict.violation("ExecutionEngine|configurations of the same query return different solution multisets|" + m["cfg"]["stats"] + "/" + m["cfg"]["assign"].rstrip("0123456789"),
+                              {"driver": "c02", "case": dict(m["case"]), "cfg": m["cfg"], "text": m["text"], "verdict": "configurations disagree"},
+                              detail=f"{m['cfg']} vs {meta[max(canon.values(), key=len)[0]]['cfg']}")
     return events, meta, failed, res
 
 
@@ -147,7 +172,7 @@ def run(ctx):
                    "non-trivial = accepted with a non-empty solution multiset",
            "samples": [{"text": smp["text"], "cfg": smp["cfg"], "solutions": smp["nsols"]}],
            "states": res["states"], "transitions": res["states"], "traces_validated_against_impl": len(events),
-           "configurations": dims, "distinct_plan_shapes": len(shapes), "skipped": len(res["info"]), "rejected": len(failed)}
+           "configurations": dims, "executions_with_more_than_64_solutions": sum(1 for m in meta.values() if m["nsols"] > 64), "distinct_plan_shapes": len(shapes), "skipped": len(res["info"]), "rejected": len(failed)}
     vlib.write_evidence("C02", ctx.tier, ctx.seed, "model_checking", cov,
                         ["interleavings inside rayon are not controlled; pool size is a configuration axis only",
                          "join assignments are exhaustive up to max_assign per plan and seeded samples beyond",
